@@ -32,6 +32,13 @@ pub enum Case {
     SigShape { kind: u8, sigs: Vec<Bytes>, keys: Vec<Bytes>, m: Bytes, n: Bytes, value: Option<u64>, dummy: bool, #[serde(default)] filler: Vec<gs::Filler>, #[serde(default)] inside: bool },
     /// interpreter built from a transaction input
     FromTx { n_in: u8, idx: u8, lock: Option<Vec<El>>, value: Option<u64>, unlock: Vec<El> },
+    /// raw unlocking / locking script bytes on a one-input transaction (the libFuzzer `interptx` target)
+    RawTx {
+        #[serde(with = "crate::gen::hexser")]
+        unlock: Vec<u8>,
+        #[serde(with = "crate::gen::hexser")]
+        lock: Vec<u8>,
+    },
 }
 
 const SIZE_CAP: usize = 1 << 20;
@@ -276,6 +283,7 @@ impl Property for C16 {
                     Case::SigShape { kind, sigs, keys, m, n, value, dummy, filler, inside }
                 }),
             1 => (soup(false, 1), prop::collection::vec(any::<u8>(), 0..20)).prop_map(|(before, d)| Case::Coinbase { before, data: Bytes::Lit(d) }),
+            3 => (soup(false, 1), soup(false, 2), prop::collection::vec(crate::props::c02::mutation(), 0..2)).prop_map(|(u, l, muts)| { let mut lb = gs::to_bytes(&l); crate::props::c02::apply_mutations(&mut lb, &muts); Case::RawTx { unlock: gs::to_bytes(&u), lock: lb } }),
             12 => (1u8..3, any::<u8>(), prop::option::weighted(0.85, soup(false, 2)), prop::option::weighted(0.85, gen::u64_edge()), soup(false, 1)).prop_map(|(n_in, idx, lock, value, unlock)| Case::FromTx { n_in, idx, lock, value, unlock }),
         ]
         .boxed()
@@ -383,6 +391,23 @@ impl Property for C16 {
                 if let Some(v) = value {
                     txin.set_satoshis(*v);
                 }
+                tx.add_input(&txin);
+                tx.add_output(&TxOut::new(1, &Script::default()));
+                check_interpreter(&|| Interpreter::from_transaction(&tx, 0).map_err(|e| e.to_string()), &mut o)?;
+            }
+            Case::RawTx { unlock, lock } => {
+                o.label("raw-bytes-from-transaction");
+                let (us, ls) = match (lib_call("Script::from_bytes", || Script::from_bytes(unlock))?, lib_call("Script::from_bytes", || Script::from_bytes(lock))?) {
+                    (Ok(u), Ok(l)) => (u, l),
+                    _ => {
+                        o.label("rejected-at-parse");
+                        return Ok(o);
+                    }
+                };
+                let mut tx = Transaction::new(1, 0);
+                let mut txin = TxIn::new(&[9u8; 32], 0, &us, Some(0xfffffffe));
+                txin.set_locking_script(&ls);
+                txin.set_satoshis(1000);
                 tx.add_input(&txin);
                 tx.add_output(&TxOut::new(1, &Script::default()));
                 check_interpreter(&|| Interpreter::from_transaction(&tx, 0).map_err(|e| e.to_string()), &mut o)?;
